@@ -135,6 +135,16 @@ def task_direct(args):
             v = [v, values.rand_value(r, 2), values.rand_value(r, 1)][:r.randint(1, 3)]
         if r.random() < 0.01:
             v = {"T": [["c", {"K": [{"ri": ["1", "5"]}]}]]}
+        if r.random() < 0.004:
+            # far larger than any buffer: a long string (with characters that need escaping now and then), a long list,
+            # a tuple with many fields
+            n = r.choice([4095, 4096, 4097, 8192, 65535, 65536, 70000])
+            big = "".join(r.choice(["a", "b", " ", "\u00e9", "x", "y", "\"", "\\", "\n"] if i % 97 == 0 else ["a", "b", "c"]) for i in range(n))
+            v = {"T": [["s", big], ["l", [{"i": str(i)} for i in range(r.choice([1000, 5000]))]],
+                       ["t", {"T": [["k%d" % i, big[:20]] for i in range(r.choice([300, 1500]))]}]]}
+            if fmt == "yamlmulti":
+                v = [v, {"T": [["a", {"i": "1"}]]}]
+            res.count("big-values")
         rep = representable(fmt, v)
         witness = {"format": fmt, "value": v, "route": "convert-request"}
         res.case((fmt, json.dumps(v, sort_keys=True)), nontrivial=nontrivial(v))
